@@ -28,7 +28,7 @@ from sim.world import Sim, fresh_dir
 
 PROPERTY = "C06"
 LEVEL = "exploration"
-TIERS = {"quick": 1600, "thorough": 60000}
+TIERS = {"quick": 12000, "thorough": 150000}
 CHUNK = 20
 RUN_CAP_S = 120
 RULE = ("each run draws a body length (dense around 0, 1, 2^14+-2, 2^15, 2^16+-2, the 64 KiB "
